@@ -25,7 +25,8 @@ ASSUMPTIONS = [
     "msdparser tokenizes '#KEY:value;' texts without the excluded metacharacters correctly",
 ]
 MONITORS = ["tick_text", "construct", "inexact", "arith", "history", "beatvalues", "beatvalues_inplace_edit", "timing_string", "timingdata"]
-REQUIRED = ["two_events_on_one_beat", "arith_mixed_int", "arith_mixed_fraction", "inexact_half_tick_boundary", "timing_string_linebreaks"]
+REQUIRED = ["two_events_on_one_beat", "arith_mixed_int", "arith_mixed_fraction", "inexact_half_tick_boundary", "timing_string_linebreaks",
+            "rows_not_in_beat_order_timing_string", "rows_not_in_beat_order_timingdata"]
 
 TICK_LIMIT = 96000
 
@@ -130,6 +131,8 @@ def cases(ctx):
             for _ in range(m):
                 evs.append([k, rdec_str(rng)])
                 k += rng.choice([0, 1, rng.randint(1, 4000)]) if rng.random() < 0.3 else rng.randint(1, 4000)
+            if len(evs) >= 2 and rng.random() < 0.2:
+                rng.shuffle(evs)
             yield {"kind": "beatvalues", "events": evs}
         else:
             m = rng.choice([0, 1, 3, 8])
@@ -138,6 +141,9 @@ def cases(ctx):
             for _ in range(m):
                 evs.append([k, rdec_str(rng, signed=False)])
                 k += 0 if rng.random() < 0.15 else rng.randint(1, 2000)
+            if len(evs) >= 2 and rng.random() < 0.25:
+                # rows written out of beat order: the list is whatever the string says, in the order it says it
+                rng.shuffle(evs) if rng.random() < 0.5 else evs.reverse()
             rows = [rng.choice(WS) + _beat3(e[0]) + "=" + e[1] + rng.choice(WS) for e in evs]
             text = ",".join(rows) if rows else rng.choice(["", " ", "\n", "\r\n \t"])
             yield {
@@ -333,6 +339,8 @@ def check(ctx, case):
         if any(c in text for c in "\r\n"):
             ctx.feat("timing_string_linebreaks")
         expected = [(Fraction(k, 48), Decimal(v)) for k, v in evs]
+        if any(a[0] > b[0] for a, b in zip(evs, evs[1:])):
+            ctx.feat("rows_not_in_beat_order_" + kind)
         if kind == "timing_string":
             ctx.mon("timing_string")
             got = BeatValues.from_str(text)
